@@ -213,7 +213,7 @@ def _c02_specs(tier):
 
 
 def _c04_specs(tier):
-    sp = []
+    sp = [('c04-longword-open', ['--conf', 'open', '--gset', 'special', '--syms', 'AH', '--segs', '18', '--lens', '3', '--routes', 'api'], 8)]
     for conf in ('default', 'tight', 'open'):
         sp.append(('c04-%s-hand' % conf, ['--conf', conf, '--gset', 'hand', '--syms', 'SIL,AH,G,OW,T,_', '--segs', '3', '--routes', 'api,aligntext']))
         sp.append(('c04-%s-enum22' % conf, ['--conf', conf, '--gset', 'enum:2:2', '--words', 'a,go', '--syms', 'SIL,AH,G,OW,_', '--segs', '3',
@@ -237,6 +237,8 @@ def _c14_specs(tier):
                                                '--routes', 'api,fsgtext']))
         sp.append(('c14-enum22-frate%s' % fr, ['--conf', 'default', '--frate', fr, '--gset', 'enum:2:2', '--words', 'a,go', '--syms', 'SIL,AH,G,OW,_',
                                               '--segs', '2', '--lens', '1,3,4', '--routes', 'api,jsgf']))
+    # a 16-phone word, utterances up to 54 frames of one symbol: many entries under one parent, the word last in the result
+    sp.append(('c14-longword-open', ['--conf', 'open', '--gset', 'special', '--syms', 'AH', '--segs', '18', '--lens', '3', '--routes', 'api'], 8))
     sp.append(('c14-hand-open', ['--conf', 'open', '--gset', 'hand', '--syms', 'SIL,AH,G,OW,T,_', '--segs', '3', '--routes', 'api']))
     sp.append(('c14-hand-tight', ['--conf', 'tight', '--gset', 'hand', '--syms', 'SIL,AH,G,OW,T,_', '--segs', '3', '--routes', 'api']))
     if tier == 'thorough':
